@@ -57,7 +57,8 @@ pub const OW_CONVERT: usize = 15;
 pub const OW_ZST: usize = 16;
 pub const OW_HANDLE_IN: usize = 17;
 pub const OW_COPY: usize = 18;
-pub const OW_N: usize = 19;
+pub const OW_LEAK: usize = 19;
+pub const OW_N: usize = 20;
 
 /// What kind of object to allocate next: a fixed kind, or a parameterised family drawn per use.
 #[derive(Clone, Copy, Debug, PartialEq, Eq, serde::Serialize, serde::Deserialize)]
@@ -331,7 +332,7 @@ impl Gen {
         for id in &v.acc {
             let Some(o) = v.sh.objs.get(id) else { continue };
             let n = o.kind.writable_strong();
-            if n == 0 {
+            if n == 0 || o.leaked {
                 continue;
             }
             cands.push((Holder::Obj(*id), o.kind, n));
@@ -579,7 +580,7 @@ impl Gen {
                     // prefer occupied slots
                     let mut occ: Vec<(Holder, Kind, usize)> = vec![];
                     for id in &v.acc {
-                        if let Some(o) = v.sh.objs.get(id) {
+                        if let Some(o) = v.sh.objs.get(id).filter(|o| !o.leaked) {
                             for k in 0..o.kind.writable_strong() {
                                 if o.strong[k].is_some() && !(o.kind == Kind::Once || (o.kind == Kind::Field && k == FIELD_ONCE_SLOT)) {
                                     occ.push((Holder::Obj(*id), o.kind, k));
@@ -766,6 +767,18 @@ impl Gen {
                     let all = [Conv::Erase, Conv::Unsize, Conv::Raw, Conv::Weak, Conv::Thin, Conv::Kind];
                     let chain = (0..n).map(|_| all[self.rng.below(all.len())]).collect();
                     return Some(Op::Convert { obj, chain });
+                }
+                OW_LEAK => {
+                    // prefer a lock that holds something
+                    let c: Vec<(Id, bool)> = v.acc.iter().filter_map(|i| v.sh.objs.get(i).filter(|o| o.kind == Kind::Leaky && !o.leaked).map(|o| (*i, o.strong[0].is_some()))).collect();
+                    let full: Vec<Id> = c.iter().filter(|x| x.1).map(|x| x.0).collect();
+                    if !full.is_empty() && self.rng.chance(7, 8) {
+                        return Some(Op::LeakGuard { obj: full[self.rng.below(full.len())] });
+                    }
+                    if c.is_empty() {
+                        continue;
+                    }
+                    return Some(Op::LeakGuard { obj: c[self.rng.below(c.len())].0 });
                 }
                 OW_ZST => {
                     let sized = self.rng.chance(1, 6);
